@@ -52,7 +52,7 @@ func fastCall(e *asm.Emitter, m *emMethod) func(arg uint32) {
 }
 
 func C03(r *vf.Run) {
-	r.Rule = "every instruction-emitting method of *asm.Emitter (enumerated by reflection, matched against a hand-written method->(mnemonic, mode, operand kind, width guard) table) x every legal tracked width state x operand sweep: exhaustive for 8/16-bit operands and int8 displacements, 24-bit operands: all 2^24 in one width state and all low words x 8 banks + random in the other three (quick), all 2^24 in every state (thorough). Appended bytes are compared with an independent encoder, Len()/PC() advance with the architectural length, and the bytes are decoded back by the model decoder and (sampled) by both library CPUs (disassembly byte count + mnemonic, Step PC advance). A cell is (method, width state, operand class)"
+	r.Rule = "every instruction-emitting method of *asm.Emitter (enumerated by reflection, matched against a hand-written method->(mnemonic, mode, operand kind, width guard) table) x every legal tracked width state x operand sweep: exhaustive for 8/16-bit operands and int8 displacements, 24-bit operands: all 2^24 in one width state and all low words x 8 banks + random in the other three (quick), all 2^24 in every state (thorough). Appended bytes are compared with an independent encoder, Len()/PC() advance with the architectural length, and the bytes are decoded back by the model decoder and (sampled) by both library CPUs (disassembly byte count + mnemonic, Step PC advance). The same law is re-checked inside generated call histories (what a call appends must not depend on what precedes it). A cell is (method, width state, operand class)"
 	r.Assume = []string{"opcode matrix and length rule of /verif/internal/ref; the method table in /verif/props/emit.go is the 'named after' relation"}
 
 	unmapped, missing := unmappedEmitterMethods()
@@ -217,6 +217,29 @@ func C03(r *vf.Run) {
 		r.Sample(map[string]interface{}{"method": "MVN", "dest,src": "$7e,$00", "bytes": "54 7e 00"})
 	}
 
+	if r.Phase("in-context") {
+		// the same law inside whole call histories: what a call appends must not depend on what was
+		// emitted before it (previous bytes, labels, data blocks, width changes)
+		chunks := r.N(32, 1600)
+		r.Parallel(runtime.NumCPU(), chunks, func(wi, ci int) {
+			g := r.Rand("ctx").Fork(uint64(ci))
+			var n int64
+			for k := 0; k < 100 && !r.TooMany(); k++ {
+				calls, _, _ := genHistory(g, histOpts{maxCalls: 200, listing: g.Intn(4) == 0, withRefs: g.Intn(2) == 0, dataBlocks: g.Intn(4) == 0})
+				// operands biased to opcode-looking bytes
+				for i := range calls {
+					if calls[i].Op == "ins" && calls[i].M.Arg != aNone && calls[i].M.Arg != aLabel8 && calls[i].M.Arg != aLabel16 && g.Intn(3) == 0 && calls[i].M.Name != "REP" && calls[i].M.Name != "SEP" {
+						b := []uint32{0xC2, 0xE2, 0x54, 0x80, 0x4C, 0x22, 0xA9, 0x00, 0xFF}
+						calls[i].Arg = (b[g.Intn(len(b))] | b[g.Intn(len(b))]<<8 | b[g.Intn(len(b))]<<16) & (uint32(1)<<(8*uint(calls[i].M.size()-1)) - 1)
+					}
+				}
+				runHistory(r, calls, false, 16384, "in-context")
+				n += int64(len(calls))
+			}
+			r.Eval(n)
+			r.CellN("in-context:calls", n)
+		})
+	}
 	book := &shapeBook{byMode: map[string]map[string]bool{}}
 	if r.Phase("library-decode") {
 		// decode the emitted bytes with both library CPUs
